@@ -132,6 +132,13 @@ CLAIMED["C16"] = dict(
     note="Symbolic: signatures and encryption are ideal terms; the key pool is 4 SM2, 2 RSA-2048, 1 ECDSA P-256 keys and an SM2 root; alterations are single-byte; CBC/ECB envelopes are malleable, so for altered envelopes only 'an outside key never yields content' and 'GCM yields the content or an error' are demanded; DER is meant at TLV level.",
     technique="TLA+ symbolic (Dolev-Yao) model checked by TLC + spec-to-code replay with a relational oracle over the library's parsed views")
 
+CLAIMED["C10"] = dict(
+    category="model_checking",
+    text="The SM9 schemes are specified in TLA+ from GM/T 0044.2/.3/.4 (SM9.tla: H1/H2, user-key scalars, exact G1/G2 points and encodings, KDF/MAC, XOR and SM4-ECB/CBC/CFB/OFB payloads, signatures, encapsulation, key exchange) and pinned by the GM/T 0044.5 annex examples. A system machine over the dlog group model (Sm9Sys) is model-checked for Complete, Sound, RoundTrip, KxAgreement and DlogRefinesG1 and its transitions (sign/verify, wrap/unwrap, encrypt/decrypt in 5 modes x 2 encodings, key exchange, 6 key kinds x all forms, wrong id/hid/message, every byte tamper of small artefacts) are replayed against the real API on 7 dispatch configurations. Every output byte of recorded real executions with scripted nonces is recomputed by TLC from logged public intermediates (Trace_Sm9), and the recorded transcripts under 11 dispatch configurations must be byte-identical (portability).",
+    design_ref="DESIGN.md section 4, C10",
+    note="Trusted: TLC, BigNat overrides, SM9/Bn/SM3/SM4/Modes/Kdf/Der TLA+ (annex-pinned), replayer/recorder plumbing. GT values are logged, not computed: decided by route equality (ScalarBaseMultGT vs Pair), the annex anchors and C09. H2/KDF/MAC on GT arguments are idealised in the model direction. Observations (not verdicts): K1-all-zero rule tested on K1||K2, MarshalCompressedASN1 writes uncompressed points.",
+    technique="TLA+ executable specification + dlog system machine checked by TLC + two-way trace conformance with logged intermediates + cross-configuration transcript equality")
+
 NOT_BUILT = "not built yet (in progress; see DESIGN.md section 9 build order)"
 NA = {}
 
